@@ -339,18 +339,47 @@ func runLimDone(c *core.Ctx) {
 			k, _ = an.ConstInt(b.Y)
 		}
 		gs := an.Guards(lm, st.Block())
-		onlyMatch := len(gs) == 1 && gs[0].True
+		isMatch := func(v ssa.Value) bool {
+			call, isCall := v.(*ssa.Call)
+			return isCall && an.StaticCallee(&call.Call) == match && an.PathOf(call.Call.Args[0]) == "recv" && an.PathOf(call.Call.Args[1]) == "p:"+lm.Params[1].Name()
+		}
+		onlyMatch := len(gs) == 1
 		if onlyMatch {
-			call, isCall := gs[0].V.(*ssa.Call)
-			onlyMatch = isCall && an.StaticCallee(&call.Call) == match && an.PathOf(call.Call.Args[0]) == "recv" && an.PathOf(call.Call.Args[1]) == "p:"+lm.Params[1].Name()
+			v, pol := stripNot(gs[0].V, gs[0].True)
+			onlyMatch = pol && isMatch(v)
 		}
 		good = isBin && b.Op == token.ADD && an.PathOf(b.X) == "recv.cnt" && k == 1 && onlyMatch
 		detail = fmt.Sprintf("counter update %s under %d guard(s); want cnt+1 exactly on Match(event) == true", an.PathOf(st.Val), len(gs))
-		// result is the Match verdict
+		// result is the Match verdict: the call's value, or a constant on the edge that fixes the verdict
 		for _, rb := range an.ReturnBlocks(lm) {
-			if !strings.Contains(an.PathOf(an.LastInstr(rb).(*ssa.Return).Results[0]), "Match(recv,") {
+			rv := an.LastInstr(rb).(*ssa.Return).Results[0]
+			if isMatch(rv) {
+				continue
+			}
+			okConst := false
+			for _, want := range []bool{true, false} {
+				if !isConstBool(rv, want) {
+					continue
+				}
+				for _, g := range an.Guards(lm, rb) {
+					v, pol := stripNot(g.V, g.True)
+					if isMatch(v) && pol == want {
+						okConst = true
+					}
+				}
+			}
+			if ph, isPhi := rv.(*ssa.Phi); isPhi {
+				// phi of the verdict with itself (match = Match(); if match {…}; return match)
+				okConst = true
+				for _, e := range ph.Edges {
+					if !isMatch(e) {
+						okConst = false
+					}
+				}
+			}
+			if !okConst {
 				good = false
-				detail = "LimitMatch does not return Match's verdict"
+				detail = "LimitMatch does not return Match's verdict (" + an.PathOf(rv) + ")"
 			}
 		}
 	}
